@@ -15,4 +15,17 @@ PROPS = {
                         "TraceHistory is checked on the implementation only (oracle), it is not modelled in Lean"],
         "explanation": "LastWriteWins is regenerated from kv/crdt/value.go by go2lean on every run; the theorems (selection laws, convergence of any merge plan, gate behaviour, RemoveTombstones, Diff exactness) are proved about that generated definition and the tree model; the tree model is run against kv.DB on random multi-handle histories.",
     },
+    "C07": {
+        "modules": ["S3db.Props.C07"],
+        "tie_files": ["key.go"],
+        "corr": {
+            "quick": [("key", ["key", "-n", "20000", "-triples", "5000"])],
+            "thorough": [("key", ["key", "-n", "300000", "-triples", "100000"])],
+        },
+        "trusted_base": ["F64 is the exact value of an IEEE-754 double decoded from its bits; Go's float64(int64) is round-to-nearest-even and int64(float64) truncates (model definitions F64.ofInt / F64.toInt, compared with the Go runtime by the correspondence stream)",
+                         "SQLite's comparison of bound values (second oracle: `SELECT ?1 < ?2` in native SQLite on every generated pair)"],
+        "assumptions": ["NaN cannot reach a key through SQLite (it becomes NULL); theorems carry the guard KeyOK",
+                        "the tree level of a key (Key.Layer) is outside these theorems: numerically equal INTEGER and REAL keys hash to different levels (finding F9)"],
+        "explanation": "Key.Order, orderType, typeIndex, order and compareIntReal are regenerated from key.go by go2lean on every run; order_matches_sqlite proves the generated function equal to the hand-written SQLite order on every admissible pair (full int64 range, every non-NaN double), and the order laws are proved on the specification and transferred.",
+    },
 }
